@@ -1,5 +1,6 @@
 import Driver.Common
 import AslModel.Xml
+import AslModel.XmlOwn
 /-! Model driver for C07 (Xml decode / encode). -/
 open Driver AslModel.Xml
 
@@ -71,6 +72,32 @@ def deepShow (r : Result) : String :=
   | .fault => "fault"
   | .null => "deep null"
 
+/-- one op token of an `own` history: `n<v>` `a<v><w>` `r<v><j>` `c<v>` `k<v><w><j>` `s<v><w>` `d<v>` `u<v><w>` -/
+def ownOp (t : String) : Option AslModel.XmlOwn.Op :=
+  let d (c : Char) : Option Nat := if c.isDigit then some (c.toNat - 48) else none
+  match t.toList with
+  | ['n', v] => do pure (.new ((← d v) % 4))
+  | ['a', v, w] => do pure (.append ((← d v) % 4) ((← d w) % 4))
+  | ['r', v, j] => do pure (.remove ((← d v) % 4) (← d j))
+  | ['c', v] => do pure (.clear ((← d v) % 4))
+  | ['k', v, w, j] => do pure (.child ((← d v) % 4) ((← d w) % 4) (← d j))
+  | ['s', v, w] => do pure (.assign ((← d v) % 4) ((← d w) % 4))
+  | ['d', v] => do pure (.drop ((← d v) % 4))
+  | ['u', v, w] => do pure (.up ((← d v) % 4) ((← d w) % 4))
+  | _ => none
+
+/-- run a history, showing the handle variables after every op; then destroy the four handles and report what the
+    model says about leaks (live nodes left), faults (use of a dead node / count underflow) and the stored counts -/
+def ownRun (ts : List String) : String :=
+  match ts.mapM ownOp with
+  | none => "bad-op"
+  | some ops =>
+    let (h, outs, ok) := ops.foldl (fun (acc : AslModel.XmlOwn.Heap × List String × Bool) o =>
+      let h := AslModel.XmlOwn.step acc.1 o
+      (h, AslModel.XmlOwn.observe h :: acc.2.1, acc.2.2 && AslModel.XmlOwn.countsOK h)) (.init, [], true)
+    let hEnd := AslModel.XmlOwn.run h [.drop 0, .drop 1, .drop 2, .drop 3]
+    "|".intercalate outs.reverse ++ s!" end leak={AslModel.XmlOwn.liveCount hEnd} fault={hEnd.fault} counts={ok && AslModel.XmlOwn.countsOK hEnd}"
+
 def step (_ : Unit) (ts : List String) : Unit × String :=
   let r : String := match ts with
     | ["deep", n, kind] => match n.toNat? with
@@ -104,6 +131,7 @@ def step (_ : Unit) (ts : List String) : Unit × String :=
           (if c.parent == none then "M+" else "M!") ++ after ++ dumpNode c ++ " t=" ++ hex c.textOf
         | _, _ => "skip"
       | _, _, _, _ => "bad-op"
+    | "own" :: rest => ownRun rest
     | ["desc", h] => match unhex h with
       | some d =>
         let r := decode d
